@@ -345,6 +345,13 @@ fn process_transactions(
                 | SchwabTransaction::ShortTermCapGain(dividend)
                 | SchwabTransaction::LongTermCapGain(dividend) => {
                     let SchwabDividend { common, amount } = dividend;
+                    if amount.is_none() {
+                        warnings.push(format!(
+                            "Dividend row on {} for {} has no amount — skipped",
+                            common.date, common.symbol
+                        ));
+                        skipped_count += 1;
+                    }
                     if let Some(amount) = amount {
                         let amount_value = amount.abs();
                         let key = (common.date, common.symbol.clone());
@@ -393,6 +400,17 @@ fn process_transactions(
                 skipped_count += 1;
             }
         }
+    }
+
+    // Withholding rows are only carried by a dividend of the same date and symbol;
+    // anything left over would otherwise vanish without trace.
+    let mut unmatched_taxes: Vec<_> = dividend_taxes.into_iter().collect();
+    unmatched_taxes.sort_by(|a, b| a.0.cmp(&b.0));
+    for ((date, symbol), tax) in unmatched_taxes {
+        warnings.push(format!(
+            "Tax withholding of {tax} on {date} for {symbol} has no dividend on that date — skipped"
+        ));
+        skipped_count += 1;
     }
 
     // Apply deferred cancellations: remove original sells that were cancelled.
